@@ -334,6 +334,16 @@ theorem combinePatches_plain (fuel : Nat) (l : List Op) (hl : ∀ o ∈ l, isPla
 def dLocal (q : List PKey) (x : List Op) : Decision :=
   { path := q, action := "local", conflict := false, localDiff := some x, remoteDiff := none, customDiff := none }
 
+/-- a decision that sits at path `q` and resolves, whatever the document it is resolved against, to the diff `x`
+    (and is not a `clear_all`): all that `apply_decisions` uses of it -/
+structure Res (d : Decision) (q : List PKey) (x : List Op) : Prop where
+  path : d.path = q
+  nca : (d.action == "clear_all") = false
+  res : ∀ base, resolveAction base d = .ok x
+
+theorem dLocal_res (q : List PKey) (x : List Op) : Res (dLocal q x) q x :=
+  ⟨rfl, by show ("local" == "clear_all") = false; decide, fun base => resolve_local base _ x rfl rfl⟩
+
 theorem flush_root (M : J) (diffs : List Op) :
     flush M (some ⟨[], diffs, false⟩) = patch M diffs := by
   simp only [flush, getAt, bind, Except.bind]
@@ -342,12 +352,13 @@ theorem flush_root (M : J) (diffs : List Op) :
   | ok v => simp [setAt]
 
 /-- the open root group swallows the remaining root decisions: the final diff is a permutation of all their entries -/
-theorem root_acc : ∀ (es : List Op) (M : List (String × J)) (diffs : List Op),
-    (∀ o ∈ diffs, isPlainMap o = true) → (∀ o ∈ es, isPlainMap o = true) →
-    ∃ diffs', diffs'.Perm (diffs ++ es) ∧
-      applyLoop (es.map (fun e => dLocal [] [e])) (.obj M) (some ⟨[], diffs, false⟩) = patch (.obj M) diffs'
-  | [], M, diffs, _, _ => ⟨diffs, by simp, by simp [applyLoop, flush_root]⟩
-  | e :: rest, M, diffs, hd, he => by
+theorem root_acc : ∀ (rs : List (Decision × Op)) (M : List (String × J)) (diffs : List Op),
+    (∀ o ∈ diffs, isPlainMap o = true) → (∀ p ∈ rs, isPlainMap p.2 = true) → (∀ p ∈ rs, Res p.1 [] [p.2]) →
+    ∃ diffs', diffs'.Perm (diffs ++ rs.map (·.2)) ∧
+      applyLoop (rs.map (·.1)) (.obj M) (some ⟨[], diffs, false⟩) = patch (.obj M) diffs'
+  | [], M, diffs, _, _, _ => ⟨diffs, by simp, by simp [applyLoop, flush_root]⟩
+  | p :: rest, M, diffs, hd, he, hres => by
+      obtain ⟨d, e⟩ := p
       have hall : ∀ o ∈ diffs ++ [e], isPlainMap o = true := by
         intro o ho
         simp only [List.mem_append, List.mem_singleton] at ho
@@ -357,17 +368,15 @@ theorem root_acc : ∀ (es : List Op) (M : List (String × J)) (diffs : List Op)
       obtain ⟨d2, h2, p2⟩ := combinePatches_plain 63 (diffs ++ [e]) hall
       have hd2 : ∀ o ∈ d2, isPlainMap o = true := fun o ho => hall o (p2.subset ho)
       obtain ⟨d3, p3, h3⟩ := root_acc rest M d2 hd2 (fun o ho => he o (List.mem_cons_of_mem _ ho))
+        (fun o ho => hres o (List.mem_cons_of_mem _ ho))
+      have hR : Res d [] [e] := hres _ List.mem_cons_self
       refine ⟨d3, ?_, ?_⟩
       · refine p3.trans ?_
-        have : (d2 ++ rest).Perm ((diffs ++ [e]) ++ rest) := List.Perm.append_right rest p2
+        have : (d2 ++ rest.map (·.2)).Perm ((diffs ++ [e]) ++ rest.map (·.2)) := List.Perm.append_right _ p2
         simpa [List.append_assoc] using this
-      · simp only [List.map_cons, applyLoop, dLocal, splitStringPath, bind, Except.bind, pure, Except.pure]
+      · simp only [List.map_cons, applyLoop, hR.path, splitStringPath, bind, Except.bind, pure, Except.pure]
         simp only [BEq.rfl, if_true, Bool.false_eq_true, if_false, getAt]
-        have hr := resolve_local (.obj M) (dLocal [] [e]) [e] rfl rfl
-        simp only [dLocal] at hr
-        simp only [hr, List.isEmpty_nil, if_true]
-        have : ("local" == "clear_all") = false := by decide
-        simp only [this, Bool.false_eq_true, if_false, h2]
+        simp only [hR.res, List.isEmpty_nil, if_true, hR.nca, Bool.false_eq_true, if_false, h2]
         exact h3
 
 
@@ -402,22 +411,21 @@ theorem open_deep (k : String) (q' : List PKey) (x : List Op) (v pv : J) (cv : v
 
 /-- one deep decision processed by `apply_decisions` -/
 theorem deep_step (k : String) (q' : List PKey) (x : List Op) (v pv : J) (cv : v.canonical = true)
-    (hp : patch v (pushPath q' x) = .ok pv) (rest : List Decision) (M : List (String × J)) (hM : lookupKV k M = some v) :
+    (hp : patch v (pushPath q' x) = .ok pv) (dd : Decision) (hR : Res dd (PKey.s k :: q') x)
+    (rest : List Decision) (M : List (String × J)) (hM : lookupKV k M = some v) :
     -- no group open
-    (∃ g, PendOK v g k pv ∧ applyLoop (dLocal (PKey.s k :: q') x :: rest) (.obj M) none = applyLoop rest (.obj M) (some g)) ∧
+    (∃ g, PendOK v g k pv ∧ applyLoop (dd :: rest) (.obj M) none = applyLoop rest (.obj M) (some g)) ∧
     -- a group for another key is open
     (∀ (gp : Group) (kp : String) (vp pvp : J), PendOK vp gp kp pvp → kp ≠ k → lookupKV kp M = some vp →
       ∃ g, PendOK v g k pv ∧
-        applyLoop (dLocal (PKey.s k :: q') x :: rest) (.obj M) (some gp) = applyLoop rest (.obj (insertKV kp pvp M)) (some g)) := by
+        applyLoop (dd :: rest) (.obj M) (some gp) = applyLoop rest (.obj (insertKV kp pvp M)) (some g)) := by
   obtain ⟨p', line, r, hres, hpend⟩ := open_deep k q' x v pv cv hp
   constructor
   · refine ⟨_, hpend, ?_⟩
     obtain ⟨s1, s2⟩ := hres M hM
-    have hr := resolve_local r (dLocal (PKey.s k :: q') x) x rfl rfl
-    have hca : ((dLocal (PKey.s k :: q') x).action == "clear_all") = false := by
-      show ("local" == "clear_all") = false
-      decide
-    have hpath : (dLocal (PKey.s k :: q') x).path = PKey.s k :: q' := rfl
+    have hr := hR.res r
+    have hca := hR.nca
+    have hpath := hR.path
     simp only [applyLoop, bind, Except.bind, hpath, s1, s2, hr, line_push, hca]
   · intro gp kp vp pvp hgp hne hkp
     refine ⟨_, hpend, ?_⟩
@@ -426,11 +434,9 @@ theorem deep_step (k : String) (q' : List PKey) (x : List Op) (v pv : J) (cv : v
     have hM2 : lookupKV k (insertKV kp pvp M) = some v := by
       rw [lookupKV_insertKV]; simp [Ne.symm hne, hM]
     obtain ⟨_, s2'⟩ := hres (insertKV kp pvp M) hM2
-    have hr := resolve_local r (dLocal (PKey.s k :: q') x) x rfl rfl
-    have hca : ((dLocal (PKey.s k :: q') x).action == "clear_all") = false := by
-      show ("local" == "clear_all") = false
-      decide
-    have hpath : (dLocal (PKey.s k :: q') x).path = PKey.s k :: q' := rfl
+    have hr := hR.res r
+    have hca := hR.nca
+    have hpath := hR.path
     have hneq : (gp.path == PKey.s k :: p') = false := by
       rw [hpp]
       simp only [beq_eq_false_iff_ne, ne_eq, List.cons.injEq, PKey.s.injEq, not_and]
@@ -445,11 +451,13 @@ structure DeepItem where
   x : List Op
   v : J
   pv : J
+  d : Decision
 
-def DeepItem.dec (it : DeepItem) : Decision := dLocal (PKey.s it.k :: it.q') it.x
+def DeepItem.dec (it : DeepItem) : Decision := it.d
 
 def DeepItem.ok (base : List (String × J)) (it : DeepItem) : Prop :=
-  lookupKV it.k base = some it.v ∧ it.v.canonical = true ∧ patch it.v (pushPath it.q' it.x) = .ok it.pv
+  lookupKV it.k base = some it.v ∧ it.v.canonical = true ∧ patch it.v (pushPath it.q' it.x) = .ok it.pv ∧
+    Res it.d (PKey.s it.k :: it.q') it.x
 
 /-- the pending group, with the key it belongs to and the values before / after -/
 abbrev Pend := Option (Group × String × J × J)
@@ -473,7 +481,7 @@ theorem deep_loop (base : List (String × J)) : ∀ (items : List DeepItem) (tai
   | [], tail, M, F, pend, _, _, _, hinv => ⟨M, pend, rfl, by simpa using hinv⟩
   | it :: rest, tail, M, F, pend, hok, hnd, hF, hinv => by
       obtain ⟨hsk, hlk, hpe⟩ := hinv
-      obtain ⟨ho1, ho2, ho3⟩ := hok it List.mem_cons_self
+      obtain ⟨ho1, ho2, ho3, ho4⟩ := hok it List.mem_cons_self
       have hitF := hF it List.mem_cons_self
       simp only [List.map_cons, List.nodup_cons] at hnd
       obtain ⟨hnotin, hnd'⟩ := hnd
@@ -487,7 +495,7 @@ theorem deep_loop (base : List (String × J)) : ∀ (items : List DeepItem) (tai
       | none =>
         have hM : lookupKV it.k M = some it.v := by
           rw [hlk it.k]; simp [pendKey, hitF, ho1]
-        obtain ⟨⟨g, hg, hstep⟩, _⟩ := deep_step it.k it.q' it.x it.v it.pv ho2 ho3 (rest.map DeepItem.dec ++ tail) M hM
+        obtain ⟨⟨g, hg, hstep⟩, _⟩ := deep_step it.k it.q' it.x it.v it.pv ho2 ho3 it.d ho4 (rest.map DeepItem.dec ++ tail) M hM
         have hinv' : DeepInv base M ((it.k, it.pv) :: F) (some (g, it.k, it.v, it.pv)) := by
           refine ⟨hsk, ?_, ?_⟩
           · intro x
@@ -514,7 +522,7 @@ theorem deep_loop (base : List (String × J)) : ∀ (items : List DeepItem) (tai
           rw [hlk it.k]; simp [pendKey, hne, hitF, ho1]
         have hMkp : lookupKV kp M = some vp := by
           rw [hlk kp]; simp [pendKey, hbase]
-        obtain ⟨_, hstep2⟩ := deep_step it.k it.q' it.x it.v it.pv ho2 ho3 (rest.map DeepItem.dec ++ tail) M hM
+        obtain ⟨_, hstep2⟩ := deep_step it.k it.q' it.x it.v it.pv ho2 ho3 it.d ho4 (rest.map DeepItem.dec ++ tail) M hM
         obtain ⟨g, hg, hstep⟩ := hstep2 gp kp vp pvp hgp hne hMkp
         have hinv' : DeepInv base (insertKV kp pvp M) ((it.k, it.pv) :: F) (some (g, it.k, it.v, it.pv)) := by
           refine ⟨insertKV_sorted _ _ _ hsk, ?_, ?_⟩
@@ -545,16 +553,16 @@ theorem deep_loop (base : List (String × J)) : ∀ (items : List DeepItem) (tai
 /-- after the deep decisions: flush what is pending, then the root group (if any) — the result is `patch V diffs'`
     for the fully flushed root `V` and a permutation `diffs'` of the root entries -/
 theorem finish_root (base : List (String × J)) (M F : List (String × J)) (pend : Pend) (hinv : DeepInv base M F pend)
-    (es : List Op) (hes : ∀ o ∈ es, isPlainMap o = true) :
-    ∃ V diffs', SK V ∧ (∀ x, lookupKV x V = (lookupKV x F).or (lookupKV x base)) ∧ diffs'.Perm es ∧
-      applyLoop (es.map (fun e => dLocal [] [e])) (.obj M) (pend.map (·.1)) = patch (.obj V) diffs' := by
+    (rs : List (Decision × Op)) (hes : ∀ p ∈ rs, isPlainMap p.2 = true) (hres : ∀ p ∈ rs, Res p.1 [] [p.2]) :
+    ∃ V diffs', SK V ∧ (∀ x, lookupKV x V = (lookupKV x F).or (lookupKV x base)) ∧ diffs'.Perm (rs.map (·.2)) ∧
+      applyLoop (rs.map (·.1)) (.obj M) (pend.map (·.1)) = patch (.obj V) diffs' := by
   obtain ⟨hsk, hlk, hpe⟩ := hinv
   -- the fully flushed root
   cases pend with
   | none =>
     have hV : ∀ x, lookupKV x M = (lookupKV x F).or (lookupKV x base) := by
       intro x; rw [hlk x]; simp [pendKey]
-    cases es with
+    cases rs with
     | nil =>
       refine ⟨M, [], hsk, hV, List.Perm.refl _, ?_⟩
       simp only [List.map_nil, applyLoop, Option.map_none, flush]
@@ -565,15 +573,15 @@ theorem finish_root (base : List (String × J)) (M F : List (String × J)) (pend
         Bool.and_self]
       have : List.filter (fun (kv : String × J) => true) M = M := List.filter_eq_self.mpr (fun _ _ => rfl)
       rw [this, sortKV_of_sorted M hsk]
-    | cons e rest =>
+    | cons p rest =>
+      obtain ⟨d, e⟩ := p
+      have hR : Res d [] [e] := hres _ List.mem_cons_self
       obtain ⟨d', p', h'⟩ := root_acc rest M [e] (fun o ho => by simp at ho; subst ho; exact hes _ List.mem_cons_self)
-        (fun o ho => hes o (List.mem_cons_of_mem _ ho))
+        (fun o ho => hes o (List.mem_cons_of_mem _ ho)) (fun o ho => hres o (List.mem_cons_of_mem _ ho))
       refine ⟨M, d', hsk, hV, by simpa using p', ?_⟩
-      have hr := resolve_local (.obj M) (dLocal [] [e]) [e] rfl rfl
-      have hpath : (dLocal [] [e]).path = [] := rfl
-      have hca : ((dLocal [] [e]).action == "clear_all") = false := by
-        show ("local" == "clear_all") = false
-        decide
+      have hr := hR.res (.obj M)
+      have hpath := hR.path
+      have hca := hR.nca
       simp only [List.map_cons, Option.map_none, applyLoop, hpath, splitStringPath, getAt, bind, Except.bind, hr,
         List.isEmpty_nil, if_true, hca]
       exact h'
@@ -590,7 +598,7 @@ theorem finish_root (base : List (String × J)) (M F : List (String × J)) (pend
       · subst hx; simp [hFkp]
       · have : ¬ (kp = x) := fun h => hx h.symm
         simp [pendKey, hx, this]
-    cases es with
+    cases rs with
     | nil =>
       refine ⟨insertKV kp pvp M, [], hskV, hV, List.Perm.refl _, ?_⟩
       simp only [List.map_nil, applyLoop, Option.map_some, hfl]
@@ -602,15 +610,15 @@ theorem finish_root (base : List (String × J)) (M F : List (String × J)) (pend
       have : List.filter (fun (kv : String × J) => true) (insertKV kp pvp M) = insertKV kp pvp M :=
         List.filter_eq_self.mpr (fun _ _ => rfl)
       rw [this, sortKV_of_sorted _ hskV]
-    | cons e rest =>
+    | cons p rest =>
+      obtain ⟨d, e⟩ := p
+      have hR : Res d [] [e] := hres _ List.mem_cons_self
       obtain ⟨d', p', h'⟩ := root_acc rest (insertKV kp pvp M) [e] (fun o ho => by simp at ho; subst ho; exact hes _ List.mem_cons_self)
-        (fun o ho => hes o (List.mem_cons_of_mem _ ho))
+        (fun o ho => hes o (List.mem_cons_of_mem _ ho)) (fun o ho => hres o (List.mem_cons_of_mem _ ho))
       refine ⟨insertKV kp pvp M, d', hskV, hV, by simpa using p', ?_⟩
-      have hr := resolve_local (.obj (insertKV kp pvp M)) (dLocal [] [e]) [e] rfl rfl
-      have hpath : (dLocal [] [e]).path = [] := rfl
-      have hca : ((dLocal [] [e]).action == "clear_all") = false := by
-        show ("local" == "clear_all") = false
-        decide
+      have hr := hR.res (.obj (insertKV kp pvp M))
+      have hpath := hR.path
+      have hca := hR.nca
       obtain ⟨pp, hpp⟩ := hgp.1
       have hneq : (gp.path == ([] : List PKey)) = false := by rw [hpp]; rfl
       simp only [List.map_cons, Option.map_some, applyLoop, hpath, splitStringPath, bind, Except.bind, hneq,
@@ -647,11 +655,18 @@ theorem keyed_map_snd (l : List Op) : (keyed l).map (·.2) = l := by
 
 /-- **core**: `apply_decisions` on the one-sided decisions of a root object (deep decisions for the patched keys in
     any order, then the plain entries in any order) is `patch` with the whole diff -/
-theorem apply_onesided_core (base : List (String × J)) (hb : SK base) (items : List DeepItem) (es ld : List Op)
-    (hok : ∀ it ∈ items, it.ok base) (hes : ∀ o ∈ es, isPlainMap o = true)
-    (heff : ∀ o ∈ es, (mapEff base o).isSome = true)
-    (hperm : ld.Perm (items.map DeepItem.entry ++ es)) (hnd : (ld.map Op.skey).Nodup) :
-    applyDecisions (.obj base) (items.map DeepItem.dec ++ es.map (fun e => dLocal [] [e])) = patch (.obj base) ld := by
+theorem apply_onesided_core (base : List (String × J)) (hb : SK base) (items : List DeepItem)
+    (rs : List (Decision × Op)) (ld : List Op)
+    (hok : ∀ it ∈ items, it.ok base) (hrs : ∀ p ∈ rs, isPlainMap p.2 = true) (hres : ∀ p ∈ rs, Res p.1 [] [p.2])
+    (heff' : ∀ p ∈ rs, (mapEff base p.2).isSome = true)
+    (hperm' : ld.Perm (items.map DeepItem.entry ++ rs.map (·.2))) (hnd : (ld.map Op.skey).Nodup) :
+    applyDecisions (.obj base) (items.map DeepItem.dec ++ rs.map (·.1)) = patch (.obj base) ld := by
+  generalize hesdef : rs.map (·.2) = es at hperm'
+  have hperm : ld.Perm (items.map DeepItem.entry ++ es) := hperm'
+  have hes : ∀ o ∈ es, isPlainMap o = true := by
+    intro o ho; rw [← hesdef] at ho; obtain ⟨p, hp, rfl⟩ := List.mem_map.mp ho; exact hrs p hp
+  have heff : ∀ o ∈ es, (mapEff base o).isSome = true := by
+    intro o ho; rw [← hesdef] at ho; obtain ⟨p, hp, rfl⟩ := List.mem_map.mp ho; exact heff' p hp
   -- key bookkeeping
   have hnd2 : ((items.map DeepItem.entry ++ es).map Op.skey).Nodup := (hperm.map Op.skey).nodup_iff.mp hnd
   simp only [List.map_append, List.map_map] at hnd2
@@ -666,12 +681,13 @@ theorem apply_onesided_core (base : List (String × J)) (hb : SK base) (items : 
     exact this heq
   -- the deep phase
   have hinv0 : DeepInv base base [] none := ⟨hb, fun x => by simp [pendKey, lookupKV], fun _ _ _ _ h => by cases h⟩
-  obtain ⟨M', pend', h1, hinv1⟩ := deep_loop base items (es.map (fun e => dLocal [] [e])) base [] none hok hndI
+  obtain ⟨M', pend', h1, hinv1⟩ := deep_loop base items (rs.map (·.1)) base [] none hok hndI
     (fun _ _ => rfl) hinv0
-  obtain ⟨V, diffs', hskV, hlkV, hpermD, h2⟩ := finish_root base M' _ pend' hinv1 es hes
+  obtain ⟨V, diffs', hskV, hlkV, hpermD, h2⟩ := finish_root base M' _ pend' hinv1 rs hrs hres
+  rw [hesdef] at hpermD
   unfold applyDecisions
-  have h1' : applyLoop (items.map DeepItem.dec ++ es.map (fun e => dLocal [] [e])) (.obj base) none =
-      applyLoop (es.map (fun e => dLocal [] [e])) (.obj M') (pend'.map (·.1)) := by simpa using h1
+  have h1' : applyLoop (items.map DeepItem.dec ++ rs.map (·.1)) (.obj base) none =
+      applyLoop (rs.map (·.1)) (.obj M') (pend'.map (·.1)) := by simpa using h1
   rw [h1', h2]
   -- the lookups of the flushed root
   have hF : ∃ F, F = (items.map (fun it => (it.k, it.pv))).reverse ++ ([] : List (String × J)) := ⟨_, rfl⟩
@@ -720,7 +736,7 @@ theorem apply_onesided_core (base : List (String × J)) (hb : SK base) (items : 
     (fun p _ => ⟨rfl, rfl⟩)
   have hiteff : ∀ it ∈ items, mapEff base it.entry = some (some it.pv) := by
     intro it hit
-    obtain ⟨o1, _, o3⟩ := hok it hit
+    obtain ⟨o1, _, o3, _⟩ := hok it hit
     simp [DeepItem.entry, mapEff, o1, o3]
   obtain ⟨R0, hR0, hskR0, hlkR0⟩ := patchDict_table base hb.dk (keyed ld) [] [] (keyed_dk hnd)
     (fun p hp => by
@@ -989,10 +1005,10 @@ def toItem (base : List (String × J)) (d : MD) : DeepItem :=
   | .s k :: q' =>
       let x := d.localDiff.getD []
       let v := (lookupKV k base).getD .null
-      ⟨k, q', x, v, match patch v (pushPath q' x) with
+      ⟨k, q', x, v, (match patch v (pushPath q' x) with
         | .ok pv => pv
-        | .error _ => .null⟩
-  | _ => ⟨"", [], [], .null, .null⟩
+        | .error _ => .null), dLocal (.s k :: q') x⟩
+  | _ => ⟨"", [], [], .null, .null, dLocal [] []⟩
 
 /-- the entry a root one-sided decision stands for -/
 def toEntry (d : MD) : Op :=
@@ -1020,7 +1036,7 @@ theorem item_of_patch (base : List (String × J)) (hc : J.canonicalKvs base = tr
       rw [hmk]
       refine ⟨rfl, ?_, ?_, ?_⟩
       · simp only [toItem, DeepItem.ok, hv, Option.getD_some, hpush, hp]
-        exact ⟨trivial, cv, trivial⟩
+        exact ⟨trivial, cv, trivial, dLocal_res _ _⟩
       · simp [toItem, DeepItem.dec, dLocal, MD.toDecision]
       · simp [toItem, DeepItem.entry, hpush]
 
@@ -1175,9 +1191,14 @@ theorem apply_onesided_obj (E : Env) (base : List (String × J)) (ld : List Op) 
       obtain ⟨e, he, hp, rfl⟩ := hrootm d hd
       simp only [Function.comp, (entry_of_plain hp).2.1]
       exact (entry_of_plain hp).2.2
-  rw [hdec]
+  have hrs : (root.map toEntry).map (fun e => dLocal [] [e]) =
+      (root.map (fun d => (dLocal [] [toEntry d], toEntry d))).map (·.1) := by
+    simp [List.map_map, Function.comp]
+  have hrs2 : (root.map (fun d => (dLocal [] [toEntry d], toEntry d))).map (·.2) = root.map toEntry := by
+    simp [List.map_map, Function.comp]
+  rw [hdec, hrs]
   rw [← hX]
-  apply apply_onesided_core base hb (deep.map (toItem base)) (root.map toEntry) ld
+  apply apply_onesided_core base hb (deep.map (toItem base)) (root.map (fun d => (dLocal [] [toEntry d], toEntry d))) ld
   · intro it hit
     obtain ⟨d, hd, rfl⟩ := List.mem_map.mp hit
     obtain ⟨k, dd, he, rfl⟩ := hdeepm d hd
@@ -1185,12 +1206,18 @@ theorem apply_onesided_obj (E : Env) (base : List (String × J)) (ld : List Op) 
   · intro o ho
     obtain ⟨d, hd, rfl⟩ := List.mem_map.mp ho
     obtain ⟨e, he, hp, rfl⟩ := hrootm d hd
+    show isPlainMap (toEntry (mkLocal e)) = true
     rw [(entry_of_plain hp).2.1]; exact hp
   · intro o ho
     obtain ⟨d, hd, rfl⟩ := List.mem_map.mp ho
+    exact dLocal_res _ _
+  · intro o ho
+    obtain ⟨d, hd, rfl⟩ := List.mem_map.mp ho
     obtain ⟨e, he, hp, rfl⟩ := hrootm d hd
+    show (mapEff base (toEntry (mkLocal e))).isSome = true
     rw [(entry_of_plain hp).2.1]; exact heffAll e he
   · -- the entries are those of `ld`
+    rw [hrs2]
     have e1 : (deep.map (toItem base)).map DeepItem.entry ++ root.map toEntry = (sortDesc b).map (origE base) := by
       rw [hpart, List.map_append, List.map_map]
       congr 1
